@@ -12,6 +12,35 @@ def replay(spec):
     from bioscrape.simulator import py_simulate_model
     from bioscrape.random import py_seed_random
     problems = []
+    if spec.get("kind") == "Schnitz":
+        # a cell record copied on its own keeps its data and its links to mother and daughters (as copies)
+        from bioscrape.types import Schnitz
+        mk = lambda base: Schnitz(np.array([base, base + 1.0]), np.array([[base, 2.0], [base + 1, 3.0]]), np.array([1.0, 2.0]))
+        gm, m, d1, d2 = mk(0.0), mk(10.0), mk(20.0), mk(30.0)
+        m.py_set_parent(gm)
+        gm.py_set_daughters(m, None)
+        m.py_set_daughters(d1, d2)
+        d1.py_set_parent(m)
+        d2.py_set_parent(m)
+        for name, f in (("pickle", lambda x: pickle.loads(pickle.dumps(x))), ("deepcopy", copy.deepcopy)):
+            for label, obj in (("a mid-tree cell", m), ("a leaf cell", d1)):
+                try:
+                    new = f(obj)
+                except Exception as e:
+                    problems.append("%s of %s fails: %s: %s" % (name, label, type(e).__name__, e))
+                    continue
+                par = new.py_get_parent()
+                want_par = obj.py_get_parent()
+                if (par is None) != (want_par is None) or (par is not None and not np.array_equal(par.py_get_time(), want_par.py_get_time())):
+                    problems.append("%s of %s: the copy's mother is %s, the original's record starts at t=%s" %
+                                    (name, label, "missing" if par is None else "another record", want_par.py_get_time()[0]))
+                a, b = new.py_get_daughters(), obj.py_get_daughters()
+                for x, y in zip(a, b):
+                    if (x is None) != (y is None) or (x is not None and not np.array_equal(x.py_get_data(), y.py_get_data())):
+                        problems.append("%s of %s: daughters differ" % (name, label))
+                if not np.array_equal(new.py_get_data(), obj.py_get_data()):
+                    problems.append("%s of %s: data differ" % (name, label))
+        return {"reproduced": bool(problems), "observed": problems[:3], "expected": "an equal record with its links"}
     if spec.get("kind") in ("LineageVolumeCellState", "VolumeCellState"):
         # cell states over a grid of values that includes zeros and negative birth times
         import itertools
